@@ -1,6 +1,7 @@
 package main
 
 import (
+	"strings"
 	"golang.org/x/tools/go/ssa"
 )
 
@@ -10,13 +11,53 @@ func init() {
 		Decides: "(R18.1) in SuffrageStateBuilder.prove the slot index computed from a remote proof's suffrage height is tested to be within [0, len) before the slot store (a negative index panics inside a worker goroutine), and every neighbour access is guarded; " +
 			"(R18.2) a proof fetched for a suffrage height is used only if its own suffrage height equals the requested one, was found and fetched without error; " +
 			"(R18.3) every fetched proof is proved against the local previous state (slot 0) or its stored neighbours under the prove lock; the remote's last proof is validated before anything is built on it; Build reports success only after the batch build succeeded, and BatchWork drops no batch's error; " +
-			"(R18.4) the proofs of a finished batch are handed over before the batch list is replaced (the returned chain covers all batches).",
+			"(R18.4) the proofs of a finished batch are handed over before the batch list is replaced (the returned chain covers all batches).; (R18.6) a fetched proof, the remote's last proof and a state's previous hash are used as receivers only after a nil test; (R18.7) Build hands out the proved batch list only if its last element is the remote's last proof, and appends nothing unproved",
 		NotDecided: "panics inside the remote proofs' own methods for malformed objects (they are decoded and validated by the network client); the fixed-tree proof itself (C12/C13).",
 		Run:        runC18,
 	})
 }
 
 func runC18(c *Ctx) {
+	// R18.6 "never crashes": values that come from a remote are used as receivers only after a nil test
+	c.Rule("R18.6", "NilGuard")
+	if parent := c.Need("isaac.(*SuffrageStateBuilder).buildBatch"); parent != nil {
+		n := 0
+		for _, f := range WithClosures(parent) {
+			fetched := "call(s.getSuffrageProof)(ctx, *)#0"
+			uses := c.CallsD(f, fetched+".SuffrageHeight()")
+			if len(uses) == 0 || len(c.CallsD(f, "call(s.getSuffrageProof)(ctx, *)")) == 0 {
+				continue // nested closures work on the value the fetching closure already tested
+			}
+			n += len(uses)
+			c.MP(f, "a fetched proof is used only after a nil test", uses, 1, GNonNil(fetched))
+		}
+		c.Floor(parent, "uses of a fetched proof", n, 1)
+	}
+	if fn := c.Need("isaac.(*SuffrageStateBuilder).Build"); fn != nil {
+		last := "call(s.lastSuffrageProof)(ctx)#1"
+		c.MP(fn, "the remote's last proof is used only after a nil test", c.CallsD(fn, last+".IsValid(s.networkID)"), 1, GNonNil(last))
+		// R18.7: what Build hands out is the proved chain: the remote's last proof is only compared with the
+		// proved proof of its height, never appended unproved
+		c.Rule("R18.7", "MustPass")
+		var out []ssa.Instruction
+		for _, r := range Returns(fn) {
+			if len(r.Results) == 4 && c.D(RetVal(r, 1)) != "nil" {
+				out = append(out, r)
+			}
+		}
+		batch := "s.buildBatch(ctx, localstate, " + last + ".State(), *)#0"
+		c.MP(fn, "proofs are handed out only if the last proved proof is the remote's last proof (or nothing was built)", out, 1,
+			GTrue(batch+"[*].State().Hash().Equal("+last+".State().Hash())"), GFalse("φ(*)"), GFalse(last+"#2"), GFalse("call(s.lastSuffrageProof)(ctx)#2"))
+		for _, r := range out {
+			d := c.D(RetVal(r.(*ssa.Return), 1))
+			c.Report(fn, "the list handed out is the proved batch list itself (nothing appended unproved)", c.InstrPos(r),
+				!strings.Contains(d, "append("), d)
+		}
+	}
+	if fn := c.Need("isaac/block.(SuffrageProof).Prove"); fn != nil {
+		c.Rule("R18.6", "NilGuard")
+		c.MP(fn, "the state's previous hash is used only after a nil test", c.CallsD(fn, "s.st.Previous().Equal(*)"), 1, GNonNil("s.st.Previous()"))
+	}
 	builderProveRules(c, "R18.1", "R18.3")
 	if parent := c.Need("isaac.(*SuffrageStateBuilder).buildBatch"); parent != nil {
 		req := "(i + from)"
